@@ -5,11 +5,13 @@ mod c03;
 mod c04;
 mod c05;
 mod c12;
+mod c13;
 mod c19;
 mod choice;
 mod engine;
 mod refdiff;
 mod refmap;
+mod refmerge;
 mod refmvn;
 mod rng;
 mod simdir;
@@ -86,6 +88,7 @@ fn dispatch(a: &Args, digest_only: bool) -> i32 {
         "C04" => drive(&c04::C04, a, digest_only),
         "C05" => drive(&c05::C05, a, digest_only),
         "C12" => drive(&c12::C12, a, digest_only),
+        "C13" => drive(&c13::C13, a, digest_only),
         "C19" => drive(&c19::C19, a, digest_only),
         other => {
             eprintln!("harness error: no engine for {other}");
